@@ -321,6 +321,11 @@ def run_case(case, rec, mon=None):
                 mode = _ramp_pad if rng.random() < 0.5 else _pad_with
                 if mode is _pad_with and rng.random() < 0.5:
                     kwargs = {"padder": float(rng.integers(-3, 4))}
+            if j % 6 == 3:
+                # the integer options as NumPy integers of narrow types (read from an array of settings, say): the same numbers
+                W = [np.int8, np.uint8, np.int16, np.uint16][(j // 6) % 4](W)
+                nd = [np.uint8, np.int8, np.int32][(j // 6) % 3](nd)
+                rec.count("deltas_built_with_narrow_numpy_integer_options")
             x = _data(rng, shape, dtype)
             x.setflags(write=False)
             if rng.random() < 0.1:
